@@ -21,7 +21,7 @@ class CmpProp(Prop):
     batch = 'c01'
 
     def n(self, tier):
-        return 320 if tier == 'quick' else 6000
+        return 320 if tier == 'quick' else 20000
 
     def trait_sets(self):
         return subsets(self.trait_pool)
